@@ -69,6 +69,12 @@ def _worker(job):
     signal.signal(signal.SIGALRM, _alarm)
     signal.alarm(limit)
     try:
+        import resource
+        cap = int(float(inst.get("mem_gb", os.environ.get("VERIF_MEM_GB", "3.5"))) * (1 << 30))
+        try:
+            resource.setrlimit(resource.RLIMIT_AS, (cap, resource.getrlimit(resource.RLIMIT_AS)[1]))     # a term blow-up must end as "inconclusive", never as an out-of-memory machine
+        except (ValueError, OSError):
+            pass
         sys.setrecursionlimit(20000)
         from symnum import stubs, engine, expr as X
         stubs.install()
